@@ -17,6 +17,12 @@ from sa import typestate
 
 EPS = 1e-9
 
+# Parameters whose shipped value makes a clamp in the code a no-op: they are
+# taken as *any* admissible value, so that the sign rules also cover parameter
+# files that switch the mechanism on (the admissible range is itself an
+# obligation: cfg:allowance-nonnegative).
+ABSTRACTED_PARAMETERS = {'desolvationAllowance': AV(0, INF)}
+
 
 class Kernel:
     """Function summaries by abstract interpretation, resolved by callee name."""
@@ -56,6 +62,8 @@ class Kernel:
                     return const(float(v) ** 2)
             if fld in self.cfg.values:
                 v = self.cfg.values[fld]
+                if fld in ABSTRACTED_PARAMETERS and tail == fld:
+                    return ABSTRACTED_PARAMETERS[fld]
                 if isinstance(v, (int, float)) and tail == fld:
                     return const(float(v))
                 kind = self.cfg.fields[fld][0]
@@ -661,6 +669,10 @@ def run(ctx):
     ctx.ob('C16.R3', 'iterative:symmetric-threshold', ok,
            'iterative determinants are kept by a threshold on |value| (both partners alike)',
            imod, flt[0] if flt else iad)
+    # the averaged buried fraction (and every other averaged field) stays an average
+    from checks import common
+    common.check_linear_fields(ctx, 'C16.R1', prog)
+
     # ---------------------------------------------------------- R6 value writers
     # The bounds above are bounds on the value expression of every
     # Determinant(<group>, <value>) construction.  They bound the stored value
